@@ -11,6 +11,7 @@ mod p_c09;
 mod p_c11;
 mod p_c12;
 mod p_c15;
+mod p_c16;
 mod p_c19;
 mod delivery;
 mod spec;
@@ -90,6 +91,7 @@ fn main() {
                 "C12" => p_c12::generate(seed, tier, &mut sink),
                 "C11" => p_c11::generate(seed, tier, &mut sink),
                 "C15" => p_c15::generate(seed, tier, &mut sink),
+                "C16" => p_c16::generate(seed, tier, &mut sink),
                 "C19" => p_c19::generate(seed, tier, &mut sink),
                 _ => {
                     eprintln!("unknown property {}", prop);
